@@ -34,6 +34,15 @@ theorem terms_repr_fact : allRec 72 termRepr Gen.termsChunks = true := by
     terms_len_part0, terms_len_part1, terms_len_part2, terms_len_part3, terms_len_part4, terms_len_part5, terms_len_part6,
     records_append, List.length_append, Nat.zero_add, Nat.reduceAdd, Bool.and_self]
 
+/-- TABLE FACT (C05 i): for every term of years 1961..10000 the calendar-making day equals the civil day of the
+precise instant (an instant in the last half second of a day being reported as 00:00:00 of the next day). -/
+theorem terms_cal_fact : allRec 72 termCalOK Gen.termsChunks = true := by
+  unfold allRec Gen.termsChunks
+  simp only [allChunks_append, terms_termCalOK_part0, terms_termCalOK_part1, terms_termCalOK_part2, terms_termCalOK_part3,
+    terms_termCalOK_part4, terms_termCalOK_part5, terms_termCalOK_part6, terms_termCalOK_part7,
+    terms_len_part0, terms_len_part1, terms_len_part2, terms_len_part3, terms_len_part4, terms_len_part5, terms_len_part6,
+    records_append, List.length_append, Nat.zero_add, Nat.reduceAdd, Bool.and_self]
+
 theorem termRecs_length : termRecs.length = 240000 := by
   unfold termRecs Gen.termsChunks
   simp only [records_append, List.length_append, terms_len_part0, terms_len_part1, terms_len_part2, terms_len_part3,
